@@ -469,7 +469,7 @@ class Check(core.PropertyCheck):
                                         predicted=pred, source="model-sized")
         if not ctx.quick:
             both = self._both()
-            behs2, _r = ctx.simulate(self.MODEL, both, num=5000, depth=30)
+            behs2, _r = ctx.simulate(self.MODEL, both, num=3000, depth=30)
             for b in behs2:
                 cfg, ops = self._scenario(b)
                 if cfg is None:
@@ -480,7 +480,7 @@ class Check(core.PropertyCheck):
                                     "kp": list(b[-1][2]["s"]["kept"]["resp"])}]
                 yield core.Scenario({"cfg": cfg, "ops": ops, "unit": 1}, predicted=pred, source="simulate")
         rng = random.Random(ctx.seed + 7)
-        for _ in range(1500 if ctx.quick else 30000):
+        for _ in range(800 if ctx.quick else 10000):
             yield core.Scenario({"ops": None, "seed": rng.randrange(1 << 30)}, source="random")
 
     def execute(self, sc):
